@@ -137,8 +137,8 @@ func checkQuoting(c *core.Ctx, prog *core.Prog, ck *tmpl.Checker) error {
 	cfg := taint.Config{
 		SourcePkgs:    map[string]bool{core.Module: true},
 		SourceTagPkgs: map[string]bool{pkgJS: true},
-		CleanSources: clean,
-		Guards:       map[string]bool{"go/token.IsIdentifier": true, "strconv.CanBackquote": true},
+		CleanSources:  clean,
+		Guards:        map[string]bool{"go/token.IsIdentifier": true, "strconv.CanBackquote": true},
 		Sanitisers: map[string]bool{"strconv.Quote": true, "strconv.QuoteToASCII": true, "strconv.Itoa": true, "strconv.FormatInt": true, "strconv.FormatUint": true,
 			"strconv.FormatFloat": true, "strconv.FormatBool": true, "(*math/big.Rat).RatString": true, "(*math/big.Rat).String": true},
 		// tiny generic helpers are treated like library functions (result tainted iff an argument is): per call site
